@@ -194,6 +194,27 @@ def programs(ctx):
                         data = gen.frame(data, fr)
                         if ctx.mine(data):
                             yield f"big-{fname}-{r}-{where}-{bi}-{fr}", data
+    # E. Python 2 module names at protocol >= 3, where the unpickler does NOT translate them: a module literally called
+    #    `Queue` / `commands` / `copy_reg` is not part of the standard library of the interpreter that would load it
+    legacy = [("Queue", "Queue"), ("commands", "getoutput"), ("ConfigParser", "ConfigParser"), ("cPickle", "loads"),
+              ("urllib2", "urlopen"), ("SocketServer", "TCPServer"), ("copy_reg", "_reconstructor"), ("UserDict", "UserDict"),
+              ("cStringIO", "StringIO"), ("Tkinter", "Tk"), ("httplib", "HTTPConnection"), ("anydbm", "open"), ("thread", "start_new_thread")]
+    for (m, n) in legacy:
+        for r in ("GLOBAL", "STACK_GLOBAL", "INST"):
+            forms = [("import", gen.push_global(r, m, n))] if r != "INST" else []
+            call = gen.make_call(r, "INST" if r == "INST" else "REDUCE", m, n, ["x"])
+            if call is not None:
+                forms.append(("call", call))
+            for fname, body in forms:
+                for fate in ("result", "pop", "in_list", "build_target"):
+                    for proto in (3, 4, 5):
+                        for pre in (b"", gen.BENIGN_PRE[1] if len(gen.BENIGN_PRE) > 1 else b""):
+                            try:
+                                data = bytes([0x80, proto]) + pre + gen.apply_fate(body, fate)
+                            except Exception:
+                                continue
+                            if ctx.mine(data):
+                                yield f"legacy-{fname}-{r}-{fate}-p{proto}", data
     # the classic: getattr(__import__('os'), 'system')('id')
     classic = (b"c__builtin__\ngetattr\n(c__builtin__\n__import__\n(" + gen.arg_bytes(["os"]) + b"tR" +
                gen.arg_bytes(["system"]) + b"tR(" + gen.arg_bytes(["id"]) + b"tR")
@@ -212,6 +233,8 @@ def check(ctx, f, analysis, label, data):
         return
     agg.count("refvm_accepted")
     rank, reason = floor_of(vm)
+    if label.startswith("legacy-") and rank < 3 and any(ev[0] == "import" for ev in vm.log.events):
+        rank, reason = 3, "import-floor:nonstd:legacy-module-name-at-protocol-3-or-later"
     ch = h(data)
     try:
         sev = analysis.check_safety(f.Pickled.load(data)).severity.name
